@@ -203,6 +203,7 @@ NODE_OK = """res is Ok && res->Ok_0 is Some ==> ({
                 asm::ResolverNode::Res(n) => defined(&defs.res_directives, n.item_ref),
                 asm::ResolverNode::Align(n) => defined(&defs.align_directives, n.item_ref),
                 asm::ResolverNode::Addr(n) => defined(&defs.addr_directives, n.item_ref),
+                asm::ResolverNode::DataElement(n, k) => k < n.item_refs@.len() && k < n.elems@.len() && defined(&defs.data_elems, Some(n.item_refs@[k as int])),
                 _ => true,
             })
         })"""
@@ -363,8 +364,34 @@ opts_types = [
     Type("src/asm/mod.rs", "struct", "DriverSymbolDef", slot="asm"),
 ]
 
-bigint_stubs = cb.items("stub", "util", only=["new", "checked_add", "checked_sub", "checked_mul", "checked_mod", "checked_into", "checked_into_nonzero_usize", "maybe_into"], with_cmp=True)
+bigint_stubs = cb.items("stub", "util", only=["new", "checked_add", "checked_sub", "checked_mul", "checked_mod", "checked_into", "checked_into_nonzero_usize", "maybe_into", "slice", "size_or_min_size"], with_cmp=True)
 
+
+# ---- data directives (C04): width check then slice to width
+FD = "src/asm/resolver/data_block.rs"
+DE = "final(defs).data_elems.defs@[ast_data.item_refs@[elem_index as int].0 as int]->0"
+ODE = "old(defs).data_elems.defs@[ast_data.item_refs@[elem_index as int].0 as int]->0"
+resolve_data_element = Fn(
+    FD, "resolve_data_element", slot="resolver", ret="res", props=["C04", "C02", "C03"],
+    requires=[
+        C("element_defined", "elem_index < ast_data.item_refs@.len() && elem_index < ast_data.elems@.len() && defined(&old(defs).data_elems, Some(ast_data.item_refs@[elem_index as int]))", ["C03"]),
+    ],
+    ensures=pass_contract() + [
+        C("width_checked_in_last_pass",
+          "res is Ok && ctx.is_last_iteration && !%s.resolved && ast_data.elem_size is Some ==> %s.encoding.size == ast_data.elem_size" % (ODE, DE), ["C04"]),
+        C("sized_in_last_pass",
+          "res is Ok && ctx.is_last_iteration && !%s.resolved ==> %s.encoding.size is Some" % (ODE, DE), ["C04"]),
+        C("accepts_only_values_that_fit_and_keeps_their_bits",
+          "res is Ok && ctx.is_last_iteration && !%s.resolved && ast_data.elem_size is Some ==> exists|v: util::BigInt| #[trigger] data_fits(v, ast_data.elem_size->0, %s.encoding)" % (ODE, DE), ["C04"]),
+    ],
+    inserts=[
+        Insert("    // Apply definite size via slice", "    let ghost pre_slice = maybe_encoding;\n", where="before"),
+        Insert("            data_elem.resolved = true;", "            proof { if ctx.is_last_iteration && ast_data.elem_size is Some { assert(data_fits(pre_slice->0, ast_data.elem_size->0, data_elem.encoding)); } }\n", where="before"),
+        Insert("    if Some(&prev_encoding) != maybe_encoding.as_ref()", "    proof { if ctx.is_last_iteration && ast_data.elem_size is Some { assert(data_fits(pre_slice->0, ast_data.elem_size->0, data_elem.encoding)); } }\n", where="before"),
+    ],
+    closures={1: ("|e: util::BigInt| -> (r: util::BigInt)\n            requires (ast_data.elem_size is Some ==> true)\n            ensures ast_data.elem_size is Some ==> r.size == ast_data.elem_size, ast_data.elem_size is None ==> r.size == Some(e.size_or_min_size_spec()),\n                ast_data.elem_size is Some && e.fits_size() ==> (forall|j: nat| #[trigger] bit_of(r.val(), j) == (j < ast_data.elem_size->0 && bit_of(e.val(), (0 + j) as nat)))\n       ", "")},
+    rewrites=[Rewrite(r"println!\((?:[^()]|\((?:[^()]|\([^()]*\))*\))*\);", "", regex=True, rule="R7", why="debug printing statement deleted", count=2)],
+)
 
 # ---- eval_asm: the nested fixed-point loop of asm blocks (C09/C02)
 FA = "src/asm/resolver/eval_asm.rs"
@@ -397,9 +424,9 @@ UNIT = Unit(
     "U-resolver", "u_resolver/skeleton.rs",
     items=COMMON + [
               bits_until_alignment, can_guess, get_output_position, get_address, eval_address, advance_address,
-              merge, iter_new, iter_next, resolve_constant_stub, resolve_instruction_stub, resolve_data_element_stub, resolve_once,
+              merge, iter_new, iter_next, resolve_constant_stub, resolve_instruction_stub, resolve_once,
               resolve_label, resolve_res, resolve_align, resolve_addr, resolve_assert, eval_stub, eval_certain_stub, deflist_define, bankdef_define,
-              asm_query_type, asm_result_type, asm_resolve_once_stub, asm_resolve_iteratively] + value_stubs2 + value_verified,
+              asm_query_type, asm_result_type, asm_resolve_once_stub, asm_resolve_iteratively, resolve_data_element] + value_stubs2 + value_verified,
     serves=["C01", "C02", "C03", "C06", "C09", "C19"],
     description="asm::resolver: address arithmetic (iter.rs), one resolution pass (resolve_once) and the per-item resolvers for labels, #res, #align, #addr, #assert",
 )
